@@ -23,7 +23,8 @@ RULE = ("generated call DAGs of 2-7 nodes over 6 memento functions (one in a nam
         '; rounds 7-9: trees evaluated by a worker thread, aimed batches over two nodes of one function, a third of the trees under context arguments attached at the root and at inner edges'
         '; rounds 10-11: calls that hand the child a list which the caller changes in place afterwards'
         '; round 12: sub-calls (single and batched) whose result the body ignores'
-        '; round 14: function values handed over and never applied')
+        '; round 14: function values handed over and never applied'
+        '; round 15: resources looked at a second time in the same body')
 ASSUMPTIONS = ["the closed form lists every memento call a body makes, in program order, duplicates included, "
                "whether it returned, raised a memoized exception or a not-to-be-memoized one",
                "explicitly versioned functions are used so that no dependency validation interferes"]
